@@ -299,7 +299,7 @@ def evaluate(sim, scn, reqs, results, stops, status, knobs, stats=None):
                             "running_coroutine" if snap["active"] or snap["in_flight"]
                             else "open_source")
                     vs.append(Violation(PROP, "hook_early", {
-                        "unsettled": what, "stop": kind,
+                        "world": "W1", "unsettled": what, "stop": kind,
                         "stopped": bool(stop.fired or rr.stopped),
                         "tracked_background_pending": snap["tracked_background_pending"] != 0},
                                         {"request": i, "snapshot": snap}))
